@@ -247,6 +247,30 @@ def _corpus():
     c.append(_case('counts', sc=[7, 7, 3, 7, 7, 3], st=[1, 2, 3, 2, 1, 3], nt=5, c=7, via='loader', sc_absent=False, dts=DT_ALL))
     c.append(_case('counts', sc=[0, 0, 5], st=[0, 1, 1], nt=2, c=0, via='loader', sc_absent=False, dts=DT_ALL))
     c.append(_case('counts', sc=[2, 2], st=[2, 2], nt=3, c=2, via='loader', sc_absent=True, dts=DT_ALL))
+    # stage 6, seed C07-m12: selection with SPARSE ids and a LONG request (np.isin leaves its lookup table when the range of the
+    # requested ids exceeds 6 * (n_spikes + n_requested), and its per-id loop when n_requested >= 10 * n_spikes ** 0.145: the
+    # sort-based branch); a non-requested cluster with several spikes; request = absent ids + two of the three present ones
+    sc12 = [17, 2017, 17, 4017, 2017, 2017, 4017, 17, 2017, 4017, 2017, 17]
+    c.append(_case('sic', sc=sc12, cl=[1017, 4017, 3017, 5017, 6017, 17, 7017, 8017, 9017, 10017, 11017, 12017, 13017, 14017, 15017, 16017, 18017],
+                   dts=DT_ALL))
+    c.append(_case('sic', sc=sc12, cl=[40000 - 1000 * j for j in range(40)] + [17, 17], dts=DT_ALL, clform='array'))
+    c.append(_case('sic', sc=[5, 9, 5, 9, 9], cl=[2 ** 31 - 1 - 10 ** 6 * j for j in range(14)] + [5], dts=DT_ALL, clform='tuple'))
+    c.append(_case('sic', sc=[70000, 3, 70000, 3, 3, 1000000, 3], cl=[1000000] + [100000 * j for j in range(1, 16)], dts=['int32', 'int64', 'uint32'],
+                   clform='strided'))
+    # stage 6, seed C07-m13: one object used for several calls.  The lookup as the caller's own ndarray of the dtype of the case
+    # (for int32 np.asarray(lookup, dtype=np.int32) IS that object), earlier calls `pre` on it, then the judged call; `rep` =
+    # the same call again on the same argument objects, every result judged
+    c.append(_case('index_of', arr=[7, 7, 3], lookup=[3, 5, 7], dts=DT_ALL, lform='array', pre=[[3, 5, 7]]))
+    c.append(_case('index_of', arr=[7, 0, 3, 3, 0, 7, 2], lookup=[7, 3, 0, 2], dts=DT_ALL, lform='array', rep=3))
+    c.append(_case('index_of', arr=[-1, 2, -1], lookup=[2, 0], dts=DT_SIGNED, lform='array', pre=[[0], [-1, 2]], rep=2))
+    c.append(_case('index_of', arr=[5], lookup=[3, 5, 7], dts=DT_ALL, pre=[[3, 5, 7], [7, 7, 3]], rep=2))           # a list: copied
+    c.append(_case('unique', x=[3, 0, 3, 7, 0], dts=DT_ALL, rep=2))
+    c.append(_case('sic', sc=[7, 0, 3, 3, 0, 7, 2], cl=[9, 3, 0, 3], dts=DT_ALL, rep=2, clform='array'))
+    c.append(_case('spc', sc=[7, 0, 3, 3, 0, 7, 2], ids=[10, 5, 8, 9, 1, 2, 3], dts=DT_ALL, rep=2))
+    c.append(_case('gmean', cols=[[1, 2, 3, 4, 5, 6, 8]], sc=[7, 0, 3, 3, 0, 7, 2], twod=False, dts=DT_ALL, rep=2))
+    c.append(_case('spc_flatten', sc=[7, 0, 3, 3, 0, 7, 2], ids=None, dts=DT_ALL, rep=2))
+    c.append(_case('spikes_of', v=[7, 0, 3, 3, 0, 7, 2], c=3, which='cluster', dts=DT_ALL, rep=2))
+    c.append(_case('counts', sc=[7, 0, 3, 3, 0, 7, 2], st=[1, 1, 0, 2, 1, 0, 0], nt=4, c=3, dts=DT_ALL, rep=2))
     return c
 
 
@@ -387,6 +411,117 @@ def _loader_cases(rng, quick):
     return out
 
 
+def _sparse_pool(rng, p):
+    """p distinct non-negative cluster ids, from dense to widely spaced (ids that kept growing over a long curation session):
+    spacing 1 .. 10^7, optional jitter, an offset; below 2^16 in a quarter of the draws (so that uint16 holds them)"""
+    narrow = rng.random() < .25
+    step = rng.choice([1, 2, 7, 50, 300, 1000, 2500] if narrow else [1, 3, 50, 1000, 10 ** 4, 10 ** 5, 10 ** 6, 10 ** 7, 8 * 10 ** 7])
+    top = 2 ** 16 - 1 if narrow else 2 ** 31 - 1
+    step = max(1, min(step, top // (p + 1)))
+    base = rng.randint(0, max(0, min(top - step * p, 3 * step + 20)))
+    jit = rng.choice([0, 0, step // 3])
+    return sorted(set(min(top, base + j * step + (rng.randint(0, jit) if jit else 0)) for j in range(p)))
+
+
+def _sparse_sic_cases(rng, count, nmax):
+    """stage 6 (seed C07-m12): _spikes_in_clusters over the two axes that choose np.isin's internal algorithm -- the SPREAD of
+    the ids (range of the request against 6 * (n_spikes + n_requested)) and the LENGTH of the request (against
+    10 * n_spikes ** 0.145) -- jointly: n spikes (2 .. nmax) over 1 .. 24 present clusters with spacing 1 .. 10^7, a request of
+    0 .. 70 ids (present / absent between and beyond the present ones / duplicated, shuffled, sorted or reversed), given as
+    a list, a tuple, an int64 array or a strided view; every dtype that holds the ids.  One in eight draws goes to the
+    single-id TemplateModel queries and one in eight to grouping + flatten on the same sparse vector."""
+    out = []
+    for n_case in range(count):
+        n = rng.choice([rng.randint(2, 12), rng.randint(2, 40), rng.randint(2, nmax)])
+        p = rng.randint(1, 24)
+        universe = _sparse_pool(rng, 2 * p + 2)            # present and absent ids interleaved
+        rng.shuffle(universe)
+        present, absent = sorted(universe[:p]), universe[p:]
+        sc = [rng.choice(present) for _ in range(n)]
+        if rng.random() < .5:                                # a few big clusters, the rest small
+            big = rng.sample(present, min(len(present), 2))
+            sc = [rng.choice(big) if rng.random() < .6 else x for x in sc]
+        dts = _dts(sc)
+        sel = n_case % 8
+        if sel == 6:
+            out.append(_case('spikes_of', v=sc, c=rng.choice(present + absent[:1]), which=rng.choice(['cluster', 'template']), dts=dts))
+            continue
+        if sel == 7:
+            out.append(_case(rng.choice(['spc', 'spc_flatten']), sc=sc, ids=None, dts=dts))
+            continue
+        k = rng.choice([rng.randint(0, 8), rng.randint(8, 30), rng.randint(20, 70)])
+        frac = rng.choice([0., .3, .5, .8, 1.])
+        req = []
+        for _ in range(k):
+            r = rng.random()
+            if r < frac:
+                req.append(rng.choice(present))
+            elif r < frac + .1 and req:
+                req.append(rng.choice(req))                  # duplicate
+            else:
+                req.append(rng.choice(absent) if rng.random() < .8 else rng.choice(present) + rng.choice([-1, 1, 2]))
+        if rng.random() < .5:                                # leave at least one present cluster unrequested
+            drop = rng.choice(present)
+            req = [x for x in req if x != drop]
+        order = rng.randrange(3)
+        if order == 1:
+            req.sort()
+        elif order == 2:
+            req.sort(reverse=True)
+        form = rng.choice(['list', 'list', 'tuple', 'array', 'strided'])
+        kw = {} if form == 'list' else {'clform': form}
+        if rng.random() < .1:
+            kw['rep'] = 2
+        out.append(_case('sic', sc=sc, cl=req, dts=dts, **kw))
+    return out
+
+
+def _reuse_cases(rng, count):
+    """stage 6 (seed C07-m13): histories on one object.  _index_of with the lookup given as the caller's own ndarray of the
+    dtype of the case (or as a list), 0 .. 3 earlier calls with other query vectors on the same lookup object, the judged call
+    made 1 .. 3 times on the same argument objects; the other helpers called twice / three times on the same argument objects.
+    Every result is judged against the same (history-free) definition."""
+    out = []
+    for n_case in range(count):
+        pool = sorted(rng.sample(range(0, 40), rng.randint(1, 8)))
+        if rng.random() < .2:
+            pool = sorted(set(pool + [rng.choice([255, 256, 40000, 65535])]))
+        n = rng.randint(1, 12)
+        sc = [rng.choice(pool) for _ in range(n)]
+        sel = n_case % 8
+        if sel < 4:
+            lookup = list(pool)
+            rng.shuffle(lookup)
+            lookup = lookup[:rng.randint(1, len(lookup))]
+            neg = rng.random() < .3
+            qpool = lookup + ([-1] if neg else [])
+            arr = [rng.choice(qpool) for _ in range(n)]
+            pre = [[rng.choice(qpool) for _ in range(rng.randint(0, 5))] for _ in range(rng.randint(0, 3))]
+            if rng.random() < .15:
+                pre.append([max(lookup) + 1])                # an earlier call that raises
+            kw = {'lform': 'array'} if rng.random() < .75 else {}
+            if pre:
+                kw['pre'] = pre
+            r = rng.choice([1, 2, 2, 3])
+            if r > 1 or not pre:
+                kw['rep'] = max(r, 2)
+            dts = _dts(lookup, arr, *[a for a in pre if a])
+            out.append(_case('index_of', arr=arr, lookup=lookup, dts=dts, **kw))
+        elif sel == 4:
+            out.append(_case('unique', x=sc, dts=_dts(sc), rep=rng.choice([2, 3])))
+        elif sel == 5:
+            out.append(_case('sic', sc=sc, cl=_rand_req(rng, pool + [1, 41]), dts=_dts(sc), rep=2, clform=rng.choice(['list', 'array'])))
+        elif sel == 6:
+            ids = _rand_ids(rng, n) if rng.random() < .5 else None
+            if ids is not None and len(ids) < n:
+                ids = None
+            out.append(_case(rng.choice(['spc', 'spc_flatten']), sc=sc, ids=ids, dts=_dts(sc, ids or []), rep=2))
+        else:
+            cols = [[rng.randint(-99, 99) for _ in sc] for _ in range(rng.choice([1, 2]))]
+            out.append(_case('gmean', cols=cols, sc=sc, twod=len(cols) > 1, dts=_dts(sc), rep=2))
+    return out
+
+
 def _random_cases(rng, count, nmax, idmax):
     out = []
     for _ in range(count):
@@ -444,6 +579,7 @@ def generate(tier, rng):
         cases += _random_cases(rng, 1500, 400, 60)
         cases += _dt_cases(4) + _random_dt_cases(rng, 400, 40)
         cases += _wide_cases(rng, 400) + _loader_cases(rng, True)
+        cases += _sparse_sic_cases(rng, 1200, 400) + _reuse_cases(rng, 400)
         return cases
     quick = tier == 'quick'
     L = 6 if quick else 8              # grouping, unique
@@ -510,6 +646,9 @@ def generate(tier, rng):
     # ---- stage 5: ids anywhere in the dtype's range (m10); queries through the real loader (m11)
     cases += _wide_cases(rng, 140 if quick else 1500)
     cases += _loader_cases(rng, quick)
+    # ---- stage 6: sparse ids x long requests (m12); several calls on one object (m13)
+    cases += _sparse_sic_cases(rng, 400 if quick else 6000, 300 if quick else 3000)
+    cases += _reuse_cases(rng, 240 if quick else 3000)
     # ---- random long vectors
     if quick:
         cases += _random_cases(rng, 240, 1500, 500)
@@ -614,29 +753,70 @@ def _one_loader(np, k, i, dt):
     raise _Bad('no loader route for kind %r' % k)
 
 
-def _one(np, k, i, dt):
+def _req(np, cl, form):
+    """The requested cluster list in the argument form of the case: a Python list (default), a tuple, an int64 ndarray, or a
+    non-contiguous view (every second element of a longer int64 array)."""
+    if form in (None, 'list'):
+        return list(cl)
+    if form == 'tuple':
+        return tuple(cl)
+    if form == 'array':
+        return np.array(list(cl), dtype=np.int64)
+    if form == 'strided':
+        a = np.zeros(2 * len(cl), dtype=np.int64)
+        a[::2] = list(cl)
+        return a[::2]
+    raise _Bad('unknown request form %r' % (form,))
+
+
+def _thunk(np, k, i, dt):
+    """Build the arguments of the call ONCE and return a function that makes the call on those same objects (stage 6: the
+    same argument objects are used for `rep` calls, and for the earlier calls `pre` of an _index_of history)."""
     from phylib.io import array as A
-    if i.get('via') == 'loader':
-        return _one_loader(np, k, i, dt)
     if k in ('spc', 'spc_dt'):
         sc = _arr(np, i['sc'], dt)
         ids = None if i['ids'] is None else _arr(np, i['ids'], 'int64' if k == 'spc_dt' else dt)
-        d = A._spikes_per_cluster(sc, ids) if ids is not None else A._spikes_per_cluster(sc)
-        return ['dict', [[int(key), _ints(val)] for key, val in d.items()]]
+
+        def f():
+            d = A._spikes_per_cluster(sc, ids) if ids is not None else A._spikes_per_cluster(sc)
+            return ['dict', [[int(key), _ints(val)] for key, val in d.items()]]
+        return f
     if k == 'spc_flatten':
         sc = _arr(np, i['sc'], dt)
         ids = None if i['ids'] is None else _arr(np, i['ids'], dt)
-        d = A._spikes_per_cluster(sc, ids) if ids is not None else A._spikes_per_cluster(sc)
-        return ['list', _iarr(np, A._flatten_per_cluster(d))]
+
+        def f():
+            d = A._spikes_per_cluster(sc, ids) if ids is not None else A._spikes_per_cluster(sc)
+            return ['list', _iarr(np, A._flatten_per_cluster(d))]
+        return f
     if k == 'sic':
-        return ['list', _iarr(np, A._spikes_in_clusters(_arr(np, i['sc'], dt), list(i['cl'])))]
+        sc = _arr(np, i['sc'], dt)
+        cl = _req(np, i['cl'], i.get('clform'))
+        return lambda: ['list', _iarr(np, A._spikes_in_clusters(sc, cl))]
     if k == 'unique':
-        return ['list', _iarr(np, A._unique(_arr(np, i['x'], dt)))]
+        x = _arr(np, i['x'], dt)
+        return lambda: ['list', _iarr(np, A._unique(x))]
     if k in ('index_of', 'index_of_dt'):
-        return ['list', _iarr(np, A._index_of(_arr(np, i['arr'], dt), list(i['lookup'])))]
+        arr = _arr(np, i['arr'], dt)
+        # stage 6 (seed C07-m13): the lookup as the caller's own ndarray of the dtype of the case (np.asarray(lookup, int32)
+        # is then the SAME object for int32), used again for every call of the history
+        lookup = _arr(np, i['lookup'], dt) if i.get('lform') == 'array' else list(i['lookup'])
+        pre = [_arr(np, a, dt) for a in i.get('pre') or []]
+        state = {'first': True}
+
+        def f():
+            if state['first']:
+                state['first'] = False
+                for a in pre:                       # the earlier calls of the history, same lookup object
+                    try:
+                        A._index_of(a, lookup)
+                    except Exception:
+                        pass
+            return ['list', _iarr(np, A._index_of(arr, lookup))]
+        return f
     if k == 'flatten':
         d = {key: np.array(val, dtype=np.int64) for key, val in i['d']}
-        return ['list', _iarr(np, A._flatten_per_cluster(d))]
+        return lambda: ['list', _iarr(np, A._flatten_per_cluster(d))]
     if k == 'gmean':
         sc = _arr(np, i['sc'], dt)
         cols = i['cols']
@@ -653,32 +833,60 @@ def _one(np, k, i, dt):
             arr = np.array(cols[0], dtype=np.int64).astype(vtype)
         if arr.dtype != np.dtype(vtype) or arr.astype(np.float64).tolist() != np.array(cols, dtype=np.float64).T.reshape(arr.shape).tolist():
             raise _Bad('the values are not held exactly by %s' % vdt)
-        out = np.asarray(A.grouped_mean(arr, sc))
-        if out.dtype != np.float64:
-            raise TypeError('grouped_mean returned dtype %s' % out.dtype)
-        if i['twod']:
-            if out.ndim != 2 or out.shape[1] != len(cols):
+
+        def f():
+            out = np.asarray(A.grouped_mean(arr, sc))
+            if out.dtype != np.float64:
+                raise TypeError('grouped_mean returned dtype %s' % out.dtype)
+            if i['twod']:
+                if out.ndim != 2 or out.shape[1] != len(cols):
+                    raise ValueError('grouped_mean returned shape %r' % (out.shape,))
+                return ['floats', [[_ftok(x) for x in out[:, j]] for j in range(len(cols))]]
+            if out.ndim != 1:
                 raise ValueError('grouped_mean returned shape %r' % (out.shape,))
-            return ['floats', [[_ftok(x) for x in out[:, j]] for j in range(len(cols))]]
-        if out.ndim != 1:
-            raise ValueError('grouped_mean returned shape %r' % (out.shape,))
-        return ['floats', [[_ftok(x) for x in out]]]
+            return ['floats', [[_ftok(x) for x in out]]]
+        return f
     if k == 'spikes_of':
         from phylib.io.model import TemplateModel
         m = TemplateModel.__new__(TemplateModel)
         if i['which'] == 'cluster':
             m.spike_clusters = _arr(np, i['v'], dt)
-            return ['list', _iarr(np, m.get_cluster_spikes(i['c']))]
+            return lambda: ['list', _iarr(np, m.get_cluster_spikes(i['c']))]
         m.spike_templates = _arr(np, i['v'], dt)
-        return ['list', _iarr(np, m.get_template_spikes(i['c']))]
+        return lambda: ['list', _iarr(np, m.get_template_spikes(i['c']))]
     if k == 'counts':
         from phylib.io.model import TemplateModel
         m = TemplateModel.__new__(TemplateModel)
         m.spike_clusters = _arr(np, i['sc'], 'int32')          # the loader casts spike_clusters to int32
         m.spike_templates = _arr(np, i['st'], dt)
         m.n_templates = i['nt']
-        return ['list', _iarr(np, m.get_template_counts(i['c']))]
+        return lambda: ['list', _iarr(np, m.get_template_counts(i['c']))]
     raise _Bad('unknown kind %r' % k)
+
+
+def _guarded(f):
+    try:
+        return f()
+    except _Bad:
+        raise
+    except AssertionError:
+        return ['crash', 'AssertionError']
+    except Exception as e:  # the implementation raised: an observable
+        return ['crash', type(e).__name__]
+
+
+def _one(np, k, i, dt):
+    """The observations of the case under dtype dt: one per call; `rep` calls (default 1) on the SAME argument objects."""
+    if i.get('via') == 'loader':
+        return [_guarded(lambda: _one_loader(np, k, i, dt))]
+    rep = i.get('rep', 1)
+    if not (isinstance(rep, int) and 1 <= rep <= 4):
+        raise _Bad('rep must be 1..4')
+    box = []
+    o = _guarded(lambda: box.append(_thunk(np, k, i, dt)))
+    if not box:
+        return [o]
+    return [_guarded(box[0]) for _ in range(rep)]
 
 
 def run_case(case):
@@ -688,19 +896,17 @@ def run_case(case):
     seen = []          # [[observation, [dtypes]]]
     for dt in dts:
         try:
-            o = _one(np, k, i, dt)
+            obs = _one(np, k, i, dt)
         except _Bad as e:
             return ['bad', str(e)]
-        except AssertionError as e:
-            o = ['crash', 'AssertionError']
-        except Exception as e:  # the implementation raised: an observable
-            o = ['crash', type(e).__name__]
-        for s in seen:
-            if s[0] == o:
-                s[1].append(dt)
-                break
-        else:
-            seen.append([o, [dt]])
+        for o in obs:
+            for s in seen:
+                if s[0] == o:
+                    if dt not in s[1]:
+                        s[1].append(dt)
+                    break
+            else:
+                seen.append([o, [dt]])
     return ['multi', seen]
 
 
@@ -827,6 +1033,16 @@ def dist(case, obs):
         out.append('sic.req=%s' % _bucket(len(i['cl'])))
         out.append('sic.absent=%s' % bool(set(i['cl']) - set(i['sc'])))
         out.append('sic.unsorted=%s' % (list(i['cl']) != sorted(set(i['cl']))))
+        out.append('sic.req_form=%s' % i.get('clform', 'list'))
+        if i['cl'] and i['sc']:
+            # which of np.isin's three internal algorithms the sizes select (NumPy 2: table if the range of the request is at
+            # most 6 * (n + k), else the per-id loop if k < 10 * n ** 0.145, else merge sort)
+            n_, k_ = len(i['sc']), len(i['cl'])
+            wide = max(i['cl']) - min(i['cl']) > 6 * (n_ + k_)
+            out.append('sic.ids_spread=%s' % ('sparse' if wide else 'dense'))
+            out.append('sic.isin_algorithm=%s' % ('table' if not wide else 'loop' if k_ < 10 * n_ ** 0.145 else 'sort'))
+            left = set(i['sc']) - set(i['cl'])
+            out.append('sic.unrequested_cluster_with_2+_spikes=%s' % any(i['sc'].count(c) > 1 for c in left))
     if k == 'gmean':
         vdt = i.get('vdt', 'int64')
         out.append('gmean.values_dtype=' + vdt)
@@ -840,6 +1056,10 @@ def dist(case, obs):
         out.append('gmean.cluster_sum_outside_values_dtype=%s' % any(not (lo <= t <= hi) for t in sums.values()))
     if k == 'index_of':
         out.append('index_of.lookup_sorted=%s' % (list(i['lookup']) == sorted(i['lookup'])))
+        out.append('index_of.lookup_form=%s' % i.get('lform', 'list'))
+        out.append('index_of.earlier_calls_on_same_lookup=%s' % _bucket(len(i.get('pre') or [])))
+    if i.get('rep', 1) > 1:
+        out.append('%s.calls_on_same_objects=%d' % (k, i['rep']))
     return out
 
 
@@ -862,6 +1082,18 @@ def shrink(case):
     if len(i.get('dts', [])) > 1:
         for dt in i['dts']:
             yield _with(case, dts=[dt])
+    if i.get('pre'):
+        for j in range(len(i['pre'])):
+            yield _with(case, pre=i['pre'][:j] + i['pre'][j + 1:])
+        for j, a in enumerate(i['pre']):
+            for p_ in range(len(a)):
+                yield _with(case, pre=i['pre'][:j] + [a[:p_] + a[p_ + 1:]] + i['pre'][j + 1:])
+    if i.get('rep', 1) > 1:
+        yield _with(case, rep=i['rep'] - 1)
+    if i.get('clform') not in (None, 'list'):
+        yield _with(case, clform='list')
+    if i.get('lform') == 'array':
+        yield _with(case, lform='list')
     if k == 'gmean':
         n = len(i['sc'])
         if len(i['cols']) > 1:
